@@ -145,6 +145,13 @@ impl Monitor for C07 {
         if s.header() != hd {
             viol!("header-not-stable", "header() of the same sealed state gave two different answers at height {}", hd.height);
         }
+        // a height jump (fabricated re-basing of the state) starts a new lineage as far as ancestors are concerned
+        if let Some(p) = self.prev {
+            if p.height.0 + 1 != hd.height.0 && hd.height.0 > p.height.0 {
+                self.ancestors.clear();
+                self.prev = None;
+            }
+        }
         // (a) linkage
         if let Some(n) = self.net {
             if hd.network != n {
@@ -342,6 +349,7 @@ pub fn profile() -> Profile {
     p.net_w = [30, 40, 15, 15, 0, 0, 0, 0, 0];
     p.p_mut = 15;
     p.lead_blocks = 14;
+    p.p_teleport = 1;
     p.kind_w[7] = 4;
     p.low_dosc_start = true;
     p
